@@ -130,6 +130,61 @@ C02Laws(c) ==
                         c.replace_nones.tree = ReplaceNones(c.t, c.replace_nones.sentinel,
                                                             [c.cfg EXCEPT !.nil = FALSE, !.haspred = FALSE])))
 
+\* ---- C03: what the entry points must agree on beyond leaves/specs ------------------------------
+C03Extra(c) ==
+  LET exp == Flatten(c.t, c.cfg) IN
+  IF IsErr(exp) THEN Chk("errclass", c.err = exp.err)
+  ELSE Chk("unexpected-error", c.err = "") \o
+  (IF c.err # "" THEN <<>> ELSE
+   Chk("leaves", c.leaves = exp.leaves) \o
+   Chk("specs-equal-hash-repr", c.specs_equal /\ c.specs_hash /\ c.specs_repr) \o
+   Chk("paths-from-spec", c.spec_paths = Paths(exp.spec) /\ c.tree_paths = c.spec_paths) \o
+   Chk("accessors-from-spec", c.spec_accs = ExpAccs(exp.spec) /\ c.tree_accs = c.spec_accs) \o
+   Chk("counts", \A j \in DOMAIN c.counts : c.counts[j] = Len(exp.leaves)) \o
+   Chk("counts-paths", Len(c.spec_paths) = Len(exp.leaves) /\ Len(c.spec_accs) = Len(exp.leaves)) \o
+   Chk("tree_is_leaf", \A j \in DOMAIN c.is_leaf :
+          LET s == c.is_leaf[j].sub IN
+          c.is_leaf[j].is_leaf = (PredLeaf(s, c.cfg) \/ KindOf(s, c.cfg) = "leaf")) \o
+   Chk("all_leaves(leaves)", c.all_leaves_of_leaves =
+          \A j \in DOMAIN exp.leaves :
+             LET s == Resolve(exp.leaves[j], SubTrees(c.t)) IN PredLeaf(s, c.cfg) \/ KindOf(s, c.cfg) = "leaf") \o
+   (IF Has(c, "all_leaves_children")
+    THEN Chk("all_leaves(children)", c.all_leaves_children.v =
+               \A j \in DOMAIN c.t.ch : PredLeaf(c.t.ch[j], c.cfg) \/ KindOf(c.t.ch[j], c.cfg) = "leaf")
+    ELSE <<>>) \o
+   (IF Has(c, "folds")
+    THEN LET f == c.folds  tot == SeqSum(exp.leaves) IN
+         Chk("tree_reduce", f.reduce = tot /\ f.py_reduce = tot /\ f.reduce_init = tot + 1000) \o
+         Chk("tree_sum", f.sum = tot /\ f.py_sum = tot) \o
+         Chk("tree_max/min", (\A j \in DOMAIN exp.leaves : exp.leaves[j] <= f.max /\ exp.leaves[j] >= f.min)
+                             /\ InSeq(f.max, exp.leaves) /\ InSeq(f.min, exp.leaves)) \o
+         Chk("tree_all/any", f.all = f.py_all /\ f.any = f.py_any
+                             /\ f.all = (\A j \in DOMAIN exp.leaves : exp.leaves[j] % 2 = 1)
+                             /\ f.any = (\E j \in DOMAIN exp.leaves : exp.leaves[j] % 2 = 1))
+    ELSE <<>>))
+
+\* nesting around the depth limit, bound by offset: the model runs the scenario at MaxDepth = 4
+RECURSIVE ChainT(_, _)
+ChainT(kind, n) ==
+  IF n = 0 THEN PlainLeaf(1)
+  ELSE LET sub == ChainT(kind, n - 1)
+           base == [PlainLeaf(0 - 1) EXCEPT !.k = kind]
+       IN CASE kind \in {"dict", "odict", "ddict"} -> [base EXCEPT !.ch = <<sub>>, !.keys = << <<KSTR, 2>> >>]
+            [] kind = "nt" -> [base EXCEPT !.ch = <<sub>>, !.cls = 12]
+            [] kind = "ss" -> [base EXCEPT !.ch = <<sub, PlainLeaf(2)>>, !.cls = 21]
+            [] kind = "custom" -> [base EXCEPT !.ch = <<sub>>, !.cls = 1, !.meta = 1]
+            [] OTHER -> [base EXCEPT !.ch = <<sub>>]
+DepthCase(c) ==
+  LET cfg == [nil |-> c.nil, ns |-> "", haspred |-> FALSE, pk |-> <<>>, pi |-> <<>>, modes |-> <<>>,
+              reg |-> << <<"", 1>> >>, maxdepth |-> 4]
+      exp == IF c.delta = 99 THEN Err("Recursion") ELSE Flatten(ChainT(c.kind, 4 + c.delta), cfg)
+  IN Concat([j \in DOMAIN c.outs |->
+        LET o == c.outs[j] IN
+        IF IsErr(exp) THEN Chk(o.ep \o ":errclass", o.err = exp.err)
+        \* leaf counts are compared relative to the nesting depth (struct sequences carry a second field per level)
+        ELSE Chk(o.ep \o ":works-at-limit", o.err = "" /\ o.n = Len(exp.leaves) + (IF c.kind = "ss" THEN c.depth - (4 + c.delta) ELSE 0))]) \o
+     Chk("limit-is-exact", IsErr(exp) <=> c.delta > 0)
+
 \* ---- unflatten -----------------------------------------------------------------------------
 UnflattenCase(c) ==
   LET exp == Unflatten(c.spec, c.leaves, UNION {SubTrees(c.pool[i]) : i \in DOMAIN c.pool})
@@ -171,6 +226,8 @@ Verdict(c) ==
     [] c.op = "unflatten" -> UnflattenCase(c)
     [] c.op = "roundtrip" -> RoundTrip(c)
     [] c.op = "c02laws" -> C02Laws(c)
+    [] c.op = "c03extra" -> C03Extra(c)
+    [] c.op = "depth" -> DepthCase(c)
     [] c.op = "inspect" -> InspectCase(c)
     [] OTHER -> <<"unknown-op">>
 
